@@ -12,6 +12,7 @@ R27.3 left-over comments: the Comments queue returned by the top-level Fmt::txt 
 R27.4 single-line collapse: where normalize_to_single_line's result becomes the formatted text, the call is guarded by
       `!text.contains("//")` and `!text.contains("/*")` on that text (collapsing newlines behind a line comment swallows
       the rest of the right-hand side).
+R27.5 a comment text taken off the pending queue is written on every path (only its own emptiness may suppress it).
 Idempotence, layout and comment order are NOT decided.
 """
 import re
@@ -176,3 +177,81 @@ def check(ctx):
                       "seen: %s): a line comment inside the right-hand side swallows everything behind it"
                       % (short(b.path), sorted(seen_pats)), where(b, c.line))
     ctx.require_floor("R27.4", "collapse_sites", n_norm, 1)
+    taken_comments_reach_output(ctx, facts, [b for b in facts.in_crate(LS) if (b.module or "").startswith("parol_ls::formatting")])
+
+
+# ------------------------------------------------------------------------------------------------------------------ R27.5
+TAKERS = ("format_comments_before_token", "format_trailing_comment", "format_comments_before",
+          "formatted_immediately_following_comment")
+
+
+def taken_comments_reach_output(ctx, facts, bodies):
+    """R27.5 (added after seed C27-b) a comment text that was taken off the pending queue reaches the output on every path: after
+    each call of format_comments_before_token / format_trailing_comment, no path to a return avoids every use of the returned
+    text - except through the edge on which the text itself was tested to be empty.  A use that additionally depends on the
+    layout state (`if acc ends with a newline && !text.is_empty()`) drops the comment in the other layout; the queue no longer
+    holds it, so it is gone for good."""
+    from .. import cfg
+    from ..dataflow import uses_of_local, forward_derived
+    from .common import classify_switch
+    n = 0
+    for b in bodies:
+        for c in b.calls():
+            nm = (c.path or "").split("::")[-1]
+            if nm not in TAKERS or not c.dest or len(c.dest) != 1:
+                continue
+            D = c.dest[0]
+            if D == 0:
+                continue        # a wrapper that returns the pair unchanged
+            X = set()
+            for bi, si, p, rv, line, mac in b.assigns():
+                if rv[0] == "use" and rv[1][0] in ("c", "m") and rv[1][1][0] == D and len(rv[1][1]) > 1 and len(p) == 1 \
+                        and isinstance(rv[1][1][1], list) and rv[1][1][1][0] == "f" and rv[1][1][1][1] == 0:
+                    X.add(p[0])
+            n += 1
+            if not X:
+                ctx.bad("R27.5", "%s|taken-comments@%s|unused" % (fn_key(b, facts), nm), "the comment text returned by %s is never "
+                        "taken out of the result pair: the comments are removed from the queue and discarded" % nm, where(b, c.line))
+                continue
+            der = forward_derived(b, list(X), through_calls=lambda x: False)
+            use_blocks = set()
+            empties = []
+            for x in der:
+                for bi, si in uses_of_local(b, x):
+                    if si is None:
+                        cc = b.call_at(bi)
+                        if cc is None:
+                            continue
+                        n2 = (cc.path or "").split("::")[-1]
+                        if n2 in ("is_empty", "len", "drop", "ends_with", "starts_with", "contains", "trim", "trim_end"):
+                            if n2 == "is_empty":
+                                empties.append(cc)
+                            continue
+                        use_blocks.add(bi)
+                    else:
+                        st = b.stmts(bi)[si]
+                        if st[0] == "a" and (st[1] == [0] or st[2][0] == "agg"):
+                            use_blocks.add(bi)
+            avoid_edges = set()
+            for d in range(len(b.blocks)):
+                k = classify_switch(b, d)
+                if k and k[0] == "call" and k[1].bb in {e.bb for e in empties}:
+                    for v, t in b.switch_edges(d):
+                        truth = (v != 0)
+                        if k[2]:
+                            truth = not truth
+                        if truth:
+                            avoid_edges.add((d, t))
+            tc = b.term(c.bb)
+            succ = tc[4] if len(tc) > 4 and isinstance(tc[4], int) else None
+            reach = cfg.reachable_from(b, succ, avoid_blocks=use_blocks, avoid_edges=avoid_edges) if succ is not None else set()
+            dropped = bool(reach & set(b.return_blocks()))
+            ctx.check(not dropped, "R27.5", "%s|taken-comments@%d-th-call-of-%s" % (
+                fn_key(b, facts), 1 + len([x for x in b.calls() if (x.path or "").split("::")[-1] == nm and x.bb < c.bb]), nm),
+                "the comment text taken off the queue is written on every path (uses at lines %s)"
+                % sorted({b.line_of_block(u) for u in use_blocks}),
+                "the comment text taken off the queue by %s can reach the end of the function without being written (its only "
+                "uses, lines %s, depend on more than its own emptiness): in the other layout the comments are lost, e.g. "
+                "`A: ( \"a\" /* c */ | \"b\" );` is formatted as `A: ( \"a\" | \"b\" )`"
+                % (nm, sorted({b.line_of_block(u) for u in use_blocks})), where(b, c.line))
+    ctx.require_floor("R27.5", "comment_take_sites", n, 25)
